@@ -529,17 +529,16 @@ def decompose(expr, truth: bool) -> List[Tuple[ast.AST, bool]]:
 
 
 def cond_holds(conds, text: str, truth: bool) -> bool:
-    """Is the atomic fact ``text`` (normalised source) with ``truth`` among conds?"""
-    want = norm(ast.parse(text, mode="eval").body)
-    for e, t in conds:
-        if t == truth and norm(e) == want:
-            return True
-    # also accept the negated comparison spelling
-    for e, t in decompose(ast.parse(text, mode="eval").body, truth):
-        for e2, t2 in conds:
-            if t2 == t and norm(e2) == norm(e):
-                return True
-    return False
+    """Does the fact ``text`` (normalised source) with ``truth`` follow from
+    the must-conditions ``conds``?  The fact itself may be listed, or every
+    atomic fact it decomposes into (``not (a or b)`` == ``not a and not b``)."""
+    expr = ast.parse(text, mode="eval").body
+    want = norm(expr)
+    have = {(norm(e), t) for e, t in conds}
+    if (want, truth) in have:
+        return True
+    atoms = [(norm(e), t) for e, t in decompose(expr, truth) if norm(e) != want]
+    return bool(atoms) and all(a in have for a in atoms)
 
 
 def _has_suspension(node, in_cm: bool) -> bool:
